@@ -431,95 +431,95 @@ shifting by 64 gives; the count is capped so the model stays computable for huge
 def shl (a b : Val F) : Res F := shiftWith P (fun x n => x <<< (min n 64)) a b
 def shr (a b : Val F) : Res F := shiftWith P (fun x n => x.sshiftRight (min n 64)) a b
 
-/-! ## comparisons -/
+/-! ## comparisons
 
-/-- the comparison primitives one relational operator applies per operand class -/
-structure RelOps (F : Type) where
-  onInt : BitVec 64 → BitVec 64 → Bool
-  onFloat : F → F → Bool
-  onStr : Str → Str → Bool
+After `fix: … one loose comparison` every comparison operator consults the one helper
+`data.LooseCompare` (data/value_compare.go); the nodes only test its result. -/
 
-def relLt : RelOps F := ⟨fun a b => BitVec.slt a b, P.lt, strLt⟩
-def relLe : RelOps F := ⟨fun a b => BitVec.sle a b, P.le, fun a b => !strLt b a⟩
-def relGt : RelOps F := ⟨fun a b => BitVec.slt b a, fun a b => P.lt b a, fun a b => strLt b a⟩
-def relGe : RelOps F := ⟨fun a b => BitVec.sle b a, fun a b => P.le b a, fun a b => !strLt a b⟩
+/-- result of `data.LooseCompare`: −1, 0, 1 or `Unordered` -/
+inductive Ord4 | lt | eq | gt | un
+  deriving DecidableEq, Repr
 
-/-- shared shape of `BinaryLt/Le/Gt/Ge.GetValue` -/
-def rel (R : RelOps F) (a b : Val F) : Res F :=
-  match a with
-  | .int l =>
-      match b with
-      | .float rf => .val (.bool (R.onFloat (P.ofInt l) rf))
-      | _ =>
-        match asIntI P b with
-        | some r => .val (.bool (R.onInt l r))
-        | none => .val (.bool false)
-  | .float l =>
-      match asFloatI P b with
-      | some (some rf) => .val (.bool (R.onFloat l rf))
-      | some none => .err .parse
-      | none => .val (.bool false)
-  | .str l => .val (.bool (R.onStr l (asString P b)))
-  | _ => .val (.bool false)
+/-- `reverseOrder` -/
+def Ord4.rev : Ord4 → Ord4
+  | .lt => .gt | .gt => .lt | .eq => .eq | .un => .un
 
-def lt := rel P (relLt P)
-def le := rel P (relLe P)
-def gt := rel P (relGt P)
-def ge := rel P (relGe P)
+/-- `cmp.Compare` on Go `int` -/
+def ordInt (x y : BitVec 64) : Ord4 :=
+  if BitVec.slt x y then .lt else if BitVec.slt y x then .gt else .eq
+
+/-- `cmp.Compare` on Go strings (bytewise) -/
+def ordStr (x y : Str) : Ord4 :=
+  if strLt x y then .lt else if strLt y x then .gt else .eq
+
+/-- `compareFloat`: `<`, `>`, `==`, else unordered (NaN) -/
+def ordFloat (x y : F) : Ord4 :=
+  if P.lt x y then .lt else if P.lt y x then .gt else if P.eq x y then .eq else .un
+
+/-- booleans: false < true -/
+def ordBool (x y : Bool) : Ord4 :=
+  if !x && y then .lt else if x && !y then .gt else .eq
+
+/-- `compareIntString`: a numeric string is compared as a number (`ParseInt`, then `ParseFloat`),
+any other string bytewise with the decimal rendering of the integer -/
+def ordIntStr (i : BitVec 64) (s : Str) : Ord4 :=
+  match P.atoi s with
+  | some si => ordInt i si
+  | none =>
+    match P.parse s with
+    | some sf => ordFloat P (P.ofInt i) sf
+    | none => ordStr (decimal i) s
+
+/-- `compareFloatString` -/
+def ordFloatStr (f : F) (s : Str) : Ord4 :=
+  match P.parse s with
+  | some sf => ordFloat P f sf
+  | none => ordStr (P.fmtG f) s
+
+def isNullOrBool : Val F → Bool
+  | .null => true | .bool _ => true | _ => false
+
+/-- `data.LooseCompare`. `none` = the truthiness table has no `AsBool` entry for an operand
+(cannot happen for a well-formed table). -/
+def looseCompare (T : TruthTable) (a b : Val F) : Option Ord4 :=
+  match a, b with
+  | .int x, .int y => some (ordInt x y)
+  | .int x, .float y => some (ordFloat P (P.ofInt x) y)
+  | .int x, .str s => some (ordIntStr P x s)
+  | .float x, .int y => some (ordFloat P x (P.ofInt y))
+  | .float x, .float y => some (ordFloat P x y)
+  | .float x, .str s => some (ordFloatStr P x s)
+  | .str x, .str y => some (ordStr x y)
+  | .str s, .int y => some (ordIntStr P y s).rev
+  | .str s, .float y => some (ordFloatStr P y s).rev
+  | .str s, .null => some (ordStr s [])
+  | .null, .null => some .eq
+  | .null, .str s => some (ordStr [] s)
+  | _, _ =>
+    if isNullOrBool a || isNullOrBool b then
+      match valAsBool P T a, valAsBool P T b with
+      | some x, some y => some (ordBool x y)
+      | _, _ => none
+    else some .un
+
+/-- a node that tests the result of the helper -/
+def viaCompare (T : TruthTable) (test : Ord4 → Bool) (a b : Val F) : Res F :=
+  match looseCompare P T a b with
+  | some o => .val (.bool (test o))
+  | none => .crash
+
+def lt (T : TruthTable) := viaCompare P T (fun o => o == .lt)
+def le (T : TruthTable) := viaCompare P T (fun o => o == .lt || o == .eq)
+def gt (T : TruthTable) := viaCompare P T (fun o => o == .gt)
+def ge (T : TruthTable) := viaCompare P T (fun o => o == .gt || o == .eq)
 
 /-- `==`; `same` = both operands are one and the same Go object (`lv == rv`) -/
 def eqv (T : TruthTable) (same : Bool) (a b : Val F) : Res F :=
-  if same then .val (.bool true) else
-  match a with
-  | .int l =>
-      match b with
-      | .float rf => .val (.bool (P.eq (P.ofInt l) rf))
-      | _ =>
-        match asIntI P b with
-        | some r => .val (.bool (l == r))
-        | none => .val (.bool false)
-  | .float l =>
-      match asFloatI P b with
-      | some (some rf) => .val (.bool (P.eq l rf))
-      | some none => .err .parse
-      | none => .val (.bool false)
-  | .str l => .val (.bool (l == asString P b))
-  | .bool l =>
-      match valAsBool P T b with
-      | some rb => .val (.bool (l == rb))
-      | none => .crash
-  | .null =>
-      match b with
-      | .null => .val (.bool true)
-      | _ => .val (.bool false)
-  | _ => .val (.bool false)
+  if same then .val (.bool true) else viaCompare P T (fun o => o == .eq) a b
 
 /-- `!=` -/
 def nev (T : TruthTable) (same : Bool) (a b : Val F) : Res F :=
-  if same then .val (.bool false) else
-  match a with
-  | .int l =>
-      match b with
-      | .float rf => .val (.bool (!P.eq (P.ofInt l) rf))
-      | _ =>
-        match asIntI P b with
-        | some r => .val (.bool (l != r))
-        | none => .val (.bool true)
-  | .float l =>
-      match asFloatI P b with
-      | some (some rf) => .val (.bool (!P.eq l rf))
-      | some none => .err .parse
-      | none => .val (.bool true)
-  | .str l => .val (.bool (l != asString P b))
-  | .bool l =>
-      match valAsBool P T b with
-      | some rb => .val (.bool (l != rb))
-      | none => .crash
-  | .null =>
-      match b with
-      | .null => .val (.bool false)
-      | _ => .val (.bool true)
-  | _ => .val (.bool true)
+  if same then .val (.bool false) else viaCompare P T (fun o => o != .eq) a b
 
 /-- `isStrictEqual` (arrays `[1..n]`: equal iff same length; objects of the model are built alike;
 class instances are compared by identity) -/
@@ -538,37 +538,15 @@ def strictEq (same : Bool) (a b : Val F) : Bool :=
 def seq (same : Bool) (a b : Val F) : Res F := .val (.bool (strictEq P same a b))
 def sne (same : Bool) (a b : Val F) : Res F := .val (.bool (!strictEq P same a b))
 
-def cmpInt (x y : BitVec 64) : BitVec 64 :=
-  if BitVec.slt x y then BitVec.ofInt 64 (-1) else if BitVec.slt y x then 1#64 else 0#64
+/-- the integer `<=>` yields: unordered operands give 0 -/
+def Ord4.toInt : Ord4 → BitVec 64
+  | .lt => BitVec.ofInt 64 (-1) | .gt => 1#64 | .eq => 0#64 | .un => 0#64
 
-def cmpFloat (x y : F) : BitVec 64 :=
-  if P.lt x y then BitVec.ofInt 64 (-1) else if P.lt y x then 1#64 else 0#64
-
-def cmpStr (x y : Str) : BitVec 64 :=
-  if strLt x y then BitVec.ofInt 64 (-1) else if strLt y x then 1#64 else 0#64
-
-def cmpBool (x y : Bool) : BitVec 64 :=
-  if !x && y then BitVec.ofInt 64 (-1) else if x && !y then 1#64 else 0#64
-
-/-- `data.Compare` -/
-def compare (a b : Val F) : BitVec 64 :=
-  match a, b with
-  | .null, .null => 0#64
-  | .null, _ => BitVec.ofInt 64 (-1)
-  | _, .null => 1#64
-  | .int x, .int y => cmpInt x y
-  | .int x, .float y => cmpFloat P (P.ofInt x) y
-  | .float x, .int y => cmpFloat P x (P.ofInt y)
-  | .float x, .float y => cmpFloat P x y
-  | .str x, .str y => cmpStr x y
-  | .bool x, .bool y => cmpBool x y
-  | _, _ => 0#64
-
-/-- `<=>` -/
-def cmp (a b : Val F) : Res F :=
-  match a, b with
-  | .int x, .int y => .val (.int (cmpInt x y))
-  | _, _ => .val (.int (compare P a b))
+/-- `<=>` (`BinarySpaceship`; `data.Compare` maps the helper's result the same way) -/
+def cmp (T : TruthTable) (a b : Val F) : Res F :=
+  match looseCompare P T a b with
+  | some o => .val (.int o.toInt)
+  | none => .crash
 
 /-! ## `&&` `||` `.` -/
 
@@ -681,8 +659,8 @@ def eval (T : TruthTable) (op : BinOp) (same : Bool) (a b : Val F) : Res F :=
   | .shl => shl P a b | .shr => shr P a b
   | .eq => eqv P T same a b | .ne => nev P T same a b
   | .seq => seq P same a b | .sne => sne P same a b
-  | .lt => lt P a b | .le => le P a b | .gt => gt P a b | .ge => ge P a b
-  | .cmp => cmp P a b
+  | .lt => lt P T a b | .le => le P T a b | .gt => gt P T a b | .ge => ge P T a b
+  | .cmp => cmp P T a b
   | .land => land P T a b | .lor => lor P T a b
   | .dot => dot P a b
 
